@@ -103,6 +103,12 @@ def honest_case(ctx, idx):
             ctx.inconclusive("C10 no server channel")
             return
         mark = p.rec.snapshot()[-1]["n"] + 1
+        if idx % 2 == 0:
+            # segmented delivery with pauses longer than the transport's 0.1 s poll: packet
+            # headers reach the reader in two pieces with a read timeout in between, also
+            # while a re-key is pending
+            p.link.ab.stutter = p.link.ba.stutter = (0.04, 0.13)
+            desc["stutter"] = True
         for side, t in (("c", p.tc), ("s", p.ts)):
             if side in scaled:
                 t.packetizer.REKEY_PACKETS = REKP
@@ -228,6 +234,7 @@ def honest_case(ctx, idx):
                                   "stream %s: received %d of %d bytes, first difference at %r; writer=%r"
                                   % (name, len(got or b""), len(data), k, results.get("w_" + name)),
                                   dict(case=desc))
+        ctx.count("segmented_deliveries_with_pause", p.link.ab.stutters + p.link.ba.stutters)
         ctx.count("rekey_rounds_observed", rounds // 2)
         ctx.count("threshold_crossings_justifying_a_rekey", ncross)
         ctx.case(tuple(sorted(desc.items())), sample=dict(desc, rekey_rounds=rounds // 2) if idx < 2 else None,
@@ -326,3 +333,4 @@ def run(ctx):
     ctx.require("rekey_rounds_observed", 4)
     ctx.require("refusing_peers_dropped", 2)
     ctx.require("stream_bytes_compared", 10000)
+    ctx.require("segmented_deliveries_with_pause", 10)
